@@ -185,7 +185,11 @@ class VirtualLoop(asyncio.BaseEventLoop):
                 if not todo:
                     break
                 for t in todo:
-                    t.cancel()
+                    try:
+                        t.cancel()
+                    except RecursionError:
+                        # the tasks of the code under test wait for each other in a cycle (cancel() follows the wait chain)
+                        self.cancel_cycles = getattr(self, "cancel_cycles", 0) + 1
                 self.run_ready()
             for t in asyncio.all_tasks(self):
                 if t.done() and not t.cancelled():
